@@ -7,6 +7,7 @@
       composed with what the TRUE geometric mean satisfies (Proofs/GeoMeanBracket.v). *)
 From MM Require Import Base.Num Base.GASort Model.Stream Proofs.Stream Model.Sample Spec.Sample.
 From MM Require Import Proofs.Sample Proofs.CheckBase Check.C09 Proofs.CheckC09 Proofs.GeoMeanBracket.
+From MM Require Import Proofs.CheckC09Log Proofs.CheckC09Hist Proofs.CheckC09HistVal.
 From Coq Require Import Lqa Lia.
 Local Open Scope Q_scope.
 
@@ -51,5 +52,40 @@ Proof.
   unfold e9g in *. repeat split; try assumption; [rewrite E1; exact B1|rewrite E2; exact B2].
 Qed.
 
+(* ---------- grouped statements (one Print Assumptions per topic in Properties/C09.v) ---------- *)
+Theorem logspace_accept_all : forall lo hi num base res, vec_ok (VLog lo hi num base res) ->
+  log_ok lo hi num base res /\
+  ((2 <= num)%nat -> exists v0 vl, nth_error res 0 = Some v0 /\ nth_error res (num - 1) = Some vl /\
+                                   0 < v0 /\ 0 < vl /\ pow_spec base lo v0 /\ pow_spec base hi vl).
+Proof. intros lo hi num base res H. split; [apply logspace_accept_sound; exact H|intro L; apply log_ends; assumption]. Qed.
+
+Theorem history_line_all : forall sorted hasw xs ws ops c tag pos diag,
+  check_case (KHist sorted hasw xs ws ops) = verdict c tag pos diag -> (c = 0 \/ c = 1)%Z ->
+  let s0 := mkSample xs (ows hasw ws) sorted in
+  obs_hist_ok [s0] ops /\ (no_poke (map fst ops) -> obs_multiset_ok s0 ops /\ obs_fresh_ok s0 ops).
+Proof.
+  intros sorted hasw xs ws ops c tag pos diag V Hc s0.
+  destruct (check_hist_obs sorted hasw xs ws ops c tag pos diag V Hc) as [A B].
+  split; [exact A|]. intro NP. split; [exact (B NP)|exact (check_hist_fresh sorted hasw xs ws ops c tag pos diag V Hc NP)].
+Qed.
+
+Theorem history_steps_all :
+  (forall ops st cur, Forall swf st -> Forall2 sample_eqv st cur -> hist_ok st ops -> obs_hist_ok cur ops) /\
+  (forall ops s0 cur, no_poke (map fst ops) -> Forall (inv s0) cur -> obs_hist_ok cur ops -> obs_multiset_ok s0 ops) /\
+  (forall s0 s mst m sm w b1 b2 vst v, swf s0 -> swf s -> inv s0 s ->
+     query_obs_ok s mst m sm w b1 b2 vst v -> query_fresh_ok s0 mst m sm w b1 b2 vst v).
+Proof. exact (conj hist_ok_obs (conj obs_hist_multiset query_obs_fresh)). Qed.
+
 Print Assumptions stats_ignore_sorted_flag.
+Print Assumptions logspace_accept_all.
+Print Assumptions history_line_all.
 Print Assumptions geomean_bracket_vs_true.
+Theorem geomean_beyond_64 :
+  (forall xs, xs <> [] -> (forall x, In x xs -> 0 < x) -> Qprod xs <= Qpw (Qsum xs / Qofnat (length xs)) (length xs)) /\
+  (forall xs o g mn mx, (64 < length xs)%nat -> (forall x, In x xs -> 0 < x) ->
+     geo_ok xs o -> 0 < g -> Qpw g (length xs) == Qprod xs -> is_min mn xs -> is_max mx xs ->
+     exists g_obs, o = XFin g_obs /\ 0 < g_obs /\
+       mn * (1 - e9g) <= g_obs /\ g_obs <= mx * (1 + e9g) /\
+       mn <= g /\ g <= mx /\ g <= mean_def xs /\
+       Qabs (g_obs - g) <= mx * (1 + e9g) - mn * (1 - e9g)).
+Proof. exact (conj am_gm geomean_bracket_vs_true). Qed.
